@@ -104,3 +104,14 @@ prop("C18",
      quick=dict(shards=2, timeout=300), thorough=dict(shards=16, timeout=1500),
      assumptions=COMMON + ["declared box sizes above 16 MiB are not generated in-process (allocation from a 4-byte field, see DESIGN)",
                            "a box with size < 8 must make Parse terminate with an error or with everything delivered"])
+
+prop("C14",
+     rule="(1) status codes: rapid draws 1-3 simultaneous patterns (cycle 1 s .. 12 segment durations incl. cycles shorter than / not divisible "
+          "by the segment duration, rsq 0..5, code 400..599, rep filter = own id / other id / * / none), asset bundled or generated, video or "
+          "audio representation, addressing Number/Time/Timeline-Number, start, startNumber; all segments over >= 4 cycles (also far from the "
+          "start) are requested: exactly the code for the rsq-th segment starting in its cycle, otherwise a response byte-identical to the one "
+          "without the parameter. (2) traffic: 1-3 BaseURL patterns of up to 4 u/d/s/h intervals of 1-20 s: StateAt vs an own cyclic expansion "
+          "for every second of 3 cycles (near 0 and near 1.7e9), MPD offers one BaseURL per pattern, HTTP: up = plain answer, down = 404 "
+          "(slow/hang sampled in the thorough tier with a one-sided elapsed-time bound). Non-trivial = a status-code sweep with >= 1 hit and "
+          ">= 1 miss in a cycle k >= 1, or a traffic case with >= 2 BaseURLs; distinct by hash of the case.",
+     quick=dict(shards=2, timeout=400), thorough=dict(shards=16, timeout=1500), assumptions=COMMON)
